@@ -130,6 +130,16 @@ func toIdentRefList(base []*meta.Identity, v interface{}) (val.IdentRefList, err
 			refs = append(refs, ref)
 		}
 		return refs, nil
+	case []interface{}: // arrays from JSON parser
+		refs := make([]val.IdentRef, 0, len(x))
+		for _, item := range x {
+			ref, err := toIdentRef(base, item)
+			if err != nil {
+				return nil, err
+			}
+			refs = append(refs, ref)
+		}
+		return refs, nil
 	}
 	return nil, fmt.Errorf("could not coerce '%v' into identref list", v)
 }
